@@ -1,8 +1,11 @@
 #!/bin/sh
-# usage: tools/mutant_matrix.sh <dir with <prop>/<m>/patch.diff>   -> one line per (mutant, property)
+# usage: tools/mutant_matrix.sh <dir with <prop>/<m>/patch.diff> [jobs]  -> one block per (mutant, property)
 DIR=$1
+TMP=$(mktemp -d /tmp/pyvc-matrix-XXXXXX)
 for PD in "$DIR"/*/*/patch.diff; do
   M=$(basename $(dirname "$PD")); P=$(basename $(dirname $(dirname "$PD")))
-  ( OUT=$(tools/run_mutant.sh "$PD" $P 2>&1); echo "### $P/$M"; echo "$OUT" | grep -E "^== |obligation .* refuted|^   [a-z-]+:" | cut -c1-220 | head -6 ) &
+  ( OUT=$(tools/run_mutant.sh "$PD" $P 2>&1); { echo "### $P/$M"; echo "$OUT" | grep -E "^== |obligation .* refuted|^   [a-z-]+:" | cut -c1-220 | head -6; } > "$TMP/$P-$M.txt" ) &
 done
 wait
+cat "$TMP"/*.txt
+rm -rf "$TMP"
